@@ -379,7 +379,7 @@ func main() {
 	}
 
 	corpus := buildCorpus(f.Tier == "thorough")
-	n := f.N(6000, 300000)
+	n := f.N(6000, 200000)
 	defer func() {
 		if os.Getenv("WIRE_DUMP") != "" {
 			fmt.Fprintf(os.Stderr, "ask total %v %v\n", askTotal, askByCodec)
